@@ -83,7 +83,7 @@ TReset ==
   /\ flags' = {}
 
 (* Events that carry nothing the model needs. *)
-Skipped == {"car.hello", "srv.stream", "app.done", "stall", "car.refused", "ses.over"}
+Skipped == {"app.mismatch", "car.hello", "srv.stream", "app.done", "stall", "car.refused", "ses.over"}
 TSkip == l <= Len(TraceLog) /\ e.ev \in Skipped /\ Step /\ UNCHANGED vars /\ Keep
 
 TSesStart ==
